@@ -209,6 +209,13 @@ def test_D35_hex_with_a_configured_binary_prefix():
     assert x.hex() == ['0xFD', '0x05'] and x.bin() == ['b11111101', 'b00000101']
 
 
+def test_D36_subclass_instances_interoperate_with_plain_fxp():
+    class S(Fxp):
+        pass
+    assert S([0.5, 1.0], True, 8, 4).like(Fxp(None, True, 6, 2)).dtype == 'fxp-s6/2'
+    assert isinstance(np.add(S([0.5, 1.0], True, 8, 4, array_output_type='array'), Fxp([0.25, 0.5], True, 6, 2)), np.ndarray)
+
+
 @pytest.mark.xfail(reason='D12: known finding, see /verif/known_findings.json', strict=True)
 def test_D12_product_over_53_bits_narrowed_under_wrap():
     x = Fxp(-2 ** 63, True, 64, 32, raw=True, overflow='wrap', op_sizing='same')
